@@ -101,7 +101,7 @@ func c08Syntax(r *core.Run) {
 				if hung {
 					hungContexts.Store(j.ctx, true)
 					atomic.StoreInt32(&hangSeen, 1)
-					r.Witness("hang", "syntax", text, fmt.Sprintf("executing %s with %T did not return within 2 x 20 s", core.Q(text), sh), map[string]string{"Program": text, "Shape": fmt.Sprintf("%T", sh)})
+					r.Witness("hang", "syntax", text, fmt.Sprintf("executing %s with %T did not return within 20 s, nor within 90 s on a second attempt", core.Q(text), sh), map[string]string{"Program": text, "Shape": fmt.Sprintf("%T", sh)})
 					continue
 				}
 				if res.Kind == tmplx.Panicked {
@@ -144,6 +144,9 @@ var c08Snippets = []string{
 	`{{/* c */}}`, `{{- $.P0 -}}`, `{{block "blk" $.P0}}{{.}}{{end}}`, `{{template "nope"}}`, `{{template "self" $}}{{define "self"}}{{if .C}}{{template "self" .}}{{end}}{{.P0}}{{end}}`,
 	`{{with $.P0}}{{.}}{{else}}e{{end}}`, `{{$.P0.Method}}`, `{{$.P0.B}}`, `{{index $.L 0}}`, `{{index $.L 9}}`, `{{len $.L}}`, `{{and $.P0 $.C}}`, `{{not $.P0}}`, `{{call $.P0}}`,
 	`{{slice $.P0 0 1}}`, `{{.P0}}`, `{{.}}`, `{{$}}`, `{{"lit<"}}`, `{{1}}`, `{{true}}`, `{{define "d"}}x{{$.P0}}{{end}}{{template "d" $}}`, `{{template "d" $.P0}}{{define "d"}}{{.}}{{end}}`,
+	// recursive templates whose end context keeps flipping (inside a tag / inside a quoted value; in text / in a comment):
+	// the search for a fixed point of the output context must give up
+	`{{template "osc"}}{{define "osc"}}{{template "osc"}} a="{{end}}`, `{{template "osq"}}{{define "osq"}}{{template "osq"}}"{{end}}`, `{{template "osx" $}}{{define "osx"}}{{if .C}}{{template "osx" .}}{{end}}<b title='{{end}}`,
 	`{{$.P0 | printf "%s%s" "a"}}`, `{{js $.P0}}`, `{{$.P0 | js | html}}`, `{{eq $.P0 1}}`, `{{$.P0.A.B.C}}`, `{{(index $.L 0).X}}`,
 }
 
